@@ -32,6 +32,8 @@ pub struct SweepPlan {
     pub spaces: Vec<StrSpace>,
     pub suite: bool,
     pub suite_neighbourhood: bool,
+    /// `S-gen(s, d)`: texts rendered by the C03 model from all trees of <= s nodes with <= d deviations
+    pub gen: Vec<(usize, usize)>,
 }
 
 pub fn plan(tier: Tier, n_quick: usize, n_thorough: usize, k_quick: usize, k_thorough: usize) -> SweepPlan {
@@ -39,12 +41,12 @@ pub fn plan(tier: Tier, n_quick: usize, n_thorough: usize, k_quick: usize, k_tho
         Tier::Quick => {
             let mut spaces = s_char(n_quick);
             spaces.push(s_tok(k_quick));
-            SweepPlan { spaces, suite: true, suite_neighbourhood: false }
+            SweepPlan { spaces, suite: true, suite_neighbourhood: false, gen: vec![(3, 2), (4, 1)] }
         }
         Tier::Thorough => {
             let mut spaces = s_char(n_thorough);
             spaces.push(s_tok(k_thorough));
-            SweepPlan { spaces, suite: true, suite_neighbourhood: true }
+            SweepPlan { spaces, suite: true, suite_neighbourhood: true, gen: vec![(4, 2), (5, 1)] }
         }
     }
 }
@@ -59,6 +61,12 @@ where
         let n = acc.evals;
         rep.acc.merge(acc);
         rep.scope(&sp.name, n, done);
+    }
+    for (sz, d) in &plan.gen {
+        let (acc, done) = sweep_gen(*sz, *d, budget, &f);
+        let n = acc.evals;
+        rep.acc.merge(acc);
+        rep.scope(&format!("gen({sz},{d})"), n, done);
     }
     if plan.suite {
         match load_suite() {
@@ -99,6 +107,35 @@ where
             }
         }
     }
+}
+
+/// Runs `f` over every text the C03 renderer produces from all trees of <= `size` nodes (one
+/// document, and two documents for the smallest trees) with at most `dev` layout deviations.
+pub fn sweep_gen<F>(size: usize, dev: usize, budget: &Budget, f: F) -> (Acc, bool)
+where
+    F: Fn(&str, &mut Acc) + Sync,
+{
+    use crate::engine::{explore, Ch};
+    use crate::models::render::{all_trees, render};
+    let trees = all_trees(size);
+    let small = all_trees(1);
+    let (acc, done) = par_blocks(trees.len() as u64, budget, |b, acc| {
+        let t = &trees[b as usize];
+        explore(dev, &mut |ch: &mut Ch| {
+            let r = render(std::slice::from_ref(t), ch);
+            f(&r.text, acc);
+        });
+        if t.size() <= 2 {
+            for t2 in &small {
+                let pair = [t.clone(), t2.clone()];
+                explore(dev.min(1), &mut |ch: &mut Ch| {
+                    let r = render(&pair, ch);
+                    f(&r.text, acc);
+                });
+            }
+        }
+    });
+    (acc, done == trees.len() as u64)
 }
 
 // ---------------------------------------------------------------------------------------------
